@@ -123,6 +123,31 @@ func Run(c *vh.Ctx) {
 				add("gen:mutant:"+kinds, "s", mu, true)
 			}
 		}
+		// every construct that takes an operand or a clause, truncated / damaged in every way one
+		// token allows: ALL token-boundary prefixes, single-token deletions and duplications
+		for _, sn := range lexh.ConstructSnippets {
+			cuts := append([]int{0}, lexh.TokenCuts(sn)...)
+			add("construct", "s", lexh.ConstructPrelude+sn, true)
+			for k := 1; k < len(cuts); k++ {
+				add("construct:prefix", "s", lexh.ConstructPrelude+sn[:cuts[k]], true)
+				add("construct:delete", "s", lexh.ConstructPrelude+sn[:cuts[k-1]]+sn[cuts[k]:], true)
+				add("construct:dup", "s", lexh.ConstructPrelude+sn[:cuts[k]]+sn[cuts[k-1]:], true)
+			}
+		}
+		// richer generated programs (classes, match, class-init literals, closures, named / spread
+		// arguments, destructuring, heredoc …): prefixes cut at token boundaries and mutants, all run
+		for i := 0; i < c.N(250, 5000); i++ {
+			p := lexh.GenSafe2(c.Rand)
+			add("gen2", "s", p, true)
+			cuts := lexh.TokenCuts(p)
+			for k := 0; k < 10; k++ {
+				add("gen2:prefix", "s", p[:vh.Pick(c.Rand, cuts)], true)
+			}
+			for k := 0; k < 3; k++ {
+				mu, kinds := lexh.Mutate(c.Rand, p)
+				add("gen2:mutant:"+kinds, "s", mu, true)
+			}
+		}
 		for i := 0; i < c.N(1500, 30000); i++ {
 			base := vh.Pick(c.Rand, corpus).Src
 			if len(base) > 3000 {
@@ -232,7 +257,7 @@ func Run(c *vh.Ctx) {
 			if r.Run == "go-panic" {
 				// the clause of C01: an accepted program never crashes *because of a missing operand or
 				// clause* (a nil child node). Other Go panics of ill-typed operands belong to C03.
-				if strings.Contains(r.RunMsg, "nil pointer dereference") {
+				if strings.Contains(r.RunMsg, "nil pointer dereference") || strings.Contains(r.RunMsg, "interface is nil") {
 					site := siteSig(r.RunMsg)
 					if strings.HasPrefix(site, "node/") {
 						site = "node"
@@ -285,6 +310,10 @@ var pastCrashers = [][3]string{
 	{"s", "try { echo 1; } catch (Exception $e - 1) { }\n", ""},
 	{"s", "$b = $a + ; echo 1;", "run"},
 	{"s", "<1", "run"},
+	{"s", "$arr = [1]; echo $arr[", "run"},
+	{"s", "$a = 1;\nse {\n  \"k\": 1\n}\n", "run"},
+	{"t", "<?php\n#[Command(name: , description: \"x\")]\nclass A {}\n", ""},
+	{"s", "function f($a = 1, $b = 2) { return $a + $b; } echo f( , );", "run"},
 	{"s", "[,", "run"},
 	{"s", "switch ", "run"},
 	{"s", "$a = [\"a\": 1, \"b\": 2]; echo count($a);", "run"},
